@@ -14,6 +14,7 @@ def bumpOf : Sexp → Option Bump
   | .node [.atom "int", n] => n.toInt?.map .int
   | .node [.atom "npint", _, n] => n.toInt?.map .int      -- the same integer held by a numpy scalar (`is_int` admits np.int8..int64): an integer is an integer (C10-D1)
   | .node [.atom "td", n] => n.toInt?.map .td
+  | .node [.atom "tdpd", n] => n.toInt?.map .td         -- the same duration as a `pd.Timedelta` (a subclass of `datetime.timedelta`: `isinstance` holds)
   | .node [.atom "p", .atom h] => do
       let s ← hexDecode h
       let ps ← parsePeriod s
@@ -29,7 +30,12 @@ def unmodelled (t0 : Int) : Bump → Bool
 
 def handle1 (op : String) (args : List Sexp) : Option String := do
   match op, args with
-  | "run", [t0, t1, b] =>
+  -- `runas k0 k1 t0 t1 b`: the endpoints handed over as OTHER python objects that denote the same instants (`k0`, `k1` ∈ date, ts =
+  -- pd.Timestamp, np / npD = np.datetime64[us] / [D], iso = ISO string, ymd = yyyymmdd integer).  `date_range` (_drange.py:210-264)
+  -- resolves a non-bump endpoint with `dt(t)`; that `dt` of each of these spellings IS the instant is C04 (`dt_of_date`,
+  -- `pandas_roundtrip`, `np2dt_roundtrip`, `iso_str`, `num2dt_yyyymmdd`): the model is handed the instants.  The elements of the
+  -- result are compared as instants (a Timestamp start yields Timestamps from the timedelta / compound loops).
+  | "run", [t0, t1, b] | "runas", [_, _, t0, t1, b] =>
       let t0 ← t0.toInt?; let t1 ← t1.toInt?; let b ← bumpOf b
       if unmodelled t0 b then none
       match drange t0 t1 b with
